@@ -201,3 +201,10 @@ Proof.
     destruct (run_ok ops st2 IV2 SW2) as (st3' & E3' & _ & _ & A3). rewrite E3 in E3'. inversion E3'. subst st3'.
     rewrite A3. apply spec_run_frame. exact H.
 Qed.
+
+Lemma ledger_accepts_every_prefix_proof nv ops st : run (init nv) ops = Ok st ->
+  exists L, ledger_of (log (sw st)) = Some L /\ llive L = dom (heap (sw st)) /\ lblive L = blks (sw st).
+Proof.
+  intros E. destruct (run_init_ok nv ops) as (st0 & E0 & IV & _). rewrite E in E0. inversion E0. subst st0.
+  destruct (wf_led _ (inv_wf _ IV)) as (L & EL & Ll & Lb & _). exists L. auto.
+Qed.
